@@ -1,23 +1,10 @@
-(* Refuted/C02_literals.v — "a text literal yields exactly its characters,
-   numbers their value": OperandNode.emit copies the characters of an Excel text
-   literal into a Python string literal and only rewrites doubled quotes, and
-   copies a number token as it is.
-   * the Excel text  a\nb  (a, backslash, n, b) becomes the Python literal
-     "a\nb", which Python decodes to a, LINE FEED, b;
-   * the Excel text  a\  becomes "a\" — not a complete Python literal;
-   * the Excel number 007 is not a Python integer literal (leading zeros). *)
+(* Refuted/C02_literals.v — "numbers denote their value": OperandNode.emit
+   copies a number token as it is, and the Excel number 007 is not a Python
+   integer literal (leading zeros): the formula does not compile. *)
 From Coq Require Import ZArith List.
 From PV Require Import Lib.Py Model.Syntax Model.Emit.
 Import ListNotations.
 Open Scope Z_scope.
-
-Theorem C02_text_refuted : exists s r,
-  py_string_literal (emit_text (excel_quote s)) = Some r /\ r <> s.
-Proof. exists [97; 92; 110; 98], [97; 10; 98]. split; [vm_compute; reflexivity|discriminate]. Qed.
-
-Theorem C02_text_backslash_end_refuted : exists s,
-  py_string_literal (emit_text (excel_quote s)) = None.
-Proof. exists [97; 92]. vm_compute. reflexivity. Qed.
 
 Theorem C02_number_refuted : exists s,
   forallb is_digit s = true /\ dec_value s 0 = 7 /\ py_decint s = None.
